@@ -22,7 +22,7 @@ func TestMain(m *testing.M) { hx.Main(m) }
 
 // C08 — each command method reports the kernel's verdict for its own request.
 
-var hC08 = hx.New("C08", "rapid-generated histories of 1..10 client operations (GetStatus, GetRules, AddRule, DeleteRule, DeleteRules and every Set* in WaitForReply mode) on one AuditClient over a simulated kernel; per operation a generated script: ack errno (0 or one of 20 errnos), unsolicited sequence-0 audit records and runs of up to 9 transient EINTR/EAGAIN receive failures before every datagram, optional reply with a foreign sequence number, generated status structs (32..48 bytes) and rule payloads, an errno at a chosen delete of DeleteRules; start sequence incl. values just below 2^32. Oracle: result nil <=> every ack had errno 0 and no foreign reply; otherwise errors.Is(err, errno) (AddRule/EEXIST: the documented 'rule exists'); returned data equals what the kernel sent; requests carry the UAPI message type, REQUEST|ACK and the caller's payload. Non-trivial = operation with errno != 0, an interleaved event, a transient failure or a foreign reply; distinct by hash of the operation and its script")
+var hC08 = hx.New("C08", "rapid-generated histories of 1..10 client operations (GetStatus, GetRules, AddRule, DeleteRule, DeleteRules and every Set* in WaitForReply mode) on one AuditClient over a simulated kernel; per operation a generated script: ack errno (0 or one of 20 errnos), unsolicited sequence-0 audit records and runs of up to 9 transient EINTR/EAGAIN receive failures before every datagram, optional reply with a foreign sequence number, generated status structs (32..48 bytes) and rule payloads, an errno at a chosen delete of DeleteRules; start sequence incl. values just below 2^32. Oracle: result nil <=> every ack had errno 0 and no foreign reply; otherwise errors.Is(err, errno) (AddRule/EEXIST: the documented 'rule exists'); returned data equals what the kernel sent; requests carry the UAPI message type, REQUEST|ACK and the caller's payload. Non-trivial = history with an operation that has errno != 0, an interleaved event, a transient failure or a foreign reply; distinct by hash of the history")
 
 type Noise struct {
 	Events int   `json:"events,omitempty"`
@@ -185,6 +185,7 @@ func statusBytes(s *libaudit.AuditStatus) []byte {
 func propC08(c C08Case) error {
 	k := simk.New(c.StartSeq)
 	cl := &libaudit.AuditClient{Netlink: k}
+	nontrivial := false
 	for i, o := range c.Ops {
 		scripted(k, o)
 		sentBefore := len(k.Sent)
@@ -312,8 +313,11 @@ func propC08(c C08Case) error {
 		hC08.ClassN("receives-on-empty-queue", k.EmptyReads)
 		k.EmptyReads = 0
 		if wantErrno != 0 || o.Foreign || events > 0 || fails > 0 {
-			hC08.NonTrivial(hx.FP(fmt.Sprintf("%+v", o)), func() string { return fmt.Sprintf("%+v", o) })
+			nontrivial = true
 		}
+	}
+	if nontrivial {
+		hC08.NonTrivial(hx.FP(c.Describe()), c.Describe)
 	}
 	return nil
 }
